@@ -615,3 +615,919 @@ Proof.
   apply Forall_forall. intros r Hr. rewrite forallb_forall in H.
   apply vs_run_ok_pairwise_no. auto.
 Qed.
+
+(** * 7. Theorem 4: the recency order survives re-packing *)
+
+Definition trec (ts : list table) : Prop := recency_b (map ents ts) = true.
+
+Lemma vs_trec_cons a ts : trec (a :: ts) <-> Forall (tnewer a) ts /\ trec ts.
+Proof.
+  unfold trec. cbn [map recency_b]. rewrite andb_true_iff, forallb_forall, Forall_forall.
+  split; intros [H1 H2]; (split; [|assumption]).
+  - intros x Hx. apply H1. now apply in_map.
+  - intros c Hc. apply in_map_iff in Hc. destruct Hc as [x [<- Hx]]. now apply H1.
+Qed.
+
+Lemma vs_trec_app a b :
+  trec (a ++ b) <-> trec a /\ trec b /\ (forall x y, In x a -> In y b -> tnewer x y).
+Proof.
+  induction a as [|x a IH]; cbn [app].
+  - split; [intros H|tauto]. split; [reflexivity|]. split; [assumption|]. intros x y [].
+  - rewrite !vs_trec_cons, IH, Forall_app. rewrite !Forall_forall. split.
+    + intros [[H1 H2] [H3 [H4 H5]]]. repeat split; auto.
+      intros x' y [<-|Hx] Hy; auto.
+    + intros [[H1 H2] [H3 H4]]. repeat split; auto.
+      * intros y Hy. apply H4; [now left|assumption].
+      * intros x' y Hx Hy. apply H4; [now right|assumption].
+Qed.
+
+Lemma vs_trec_filter p ts : trec ts -> trec (filter p ts).
+Proof.
+  induction ts as [|a ts IH]; cbn [filter]; [auto|].
+  rewrite vs_trec_cons. intros [H1 H2]. destruct (p a); [|auto].
+  apply vs_trec_cons. split; [|auto].
+  apply Forall_forall. intros y Hy. apply filter_In in Hy. destruct Hy as [Hy _].
+  rewrite Forall_forall in H1. auto.
+Qed.
+
+(** groups (runs of a level, or levels of a version) in lookup order: everything in a
+    group is newer than everything in the later groups *)
+Fixpoint grp_rec (gs : list (list table)) : Prop :=
+  match gs with
+  | [] => True
+  | g :: gs' => (forall a b, In a g -> In b (concat gs') -> tnewer a b) /\ grp_rec gs'
+  end.
+
+Lemma vs_trec_concat gs : trec (concat gs) <-> Forall trec gs /\ grp_rec gs.
+Proof.
+  induction gs as [|g gs IH]; cbn [concat grp_rec].
+  - split; [intros _; split; [constructor|exact I]|reflexivity].
+  - rewrite vs_trec_app, IH. split.
+    + intros [H1 [[H2 H3] H4]]. repeat split; auto.
+    + intros [H1 [H2 H3]]. inversion H1; subst. repeat split; auto.
+Qed.
+
+Lemma vs_grp_rec_perm gs gs' :
+  Forall2 (@Permutation table) gs' gs -> grp_rec gs -> grp_rec gs'.
+Proof.
+  induction 1 as [|g' g gs' gs P F IH]; cbn [grp_rec]; [auto|].
+  intros [H1 H2]. split; [|auto]. intros a b Ha Hb. apply H1.
+  - eapply Permutation_in; eauto.
+  - eapply Permutation_in; [apply vs_perm_concat_Forall2; exact F|assumption].
+Qed.
+
+Lemma vs_pairwise_no_trec r : Forall tkeys_ok r -> pairwise_no r -> trec r.
+Proof.
+  induction r as [|a r IH]; intros F P; [reflexivity|].
+  inversion F as [|? ? Fa Fr]; subst. cbn [pairwise_no] in P. destruct P as [P1 P2].
+  apply vs_trec_cons. split; [|auto].
+  rewrite Forall_forall in *. intros y Hy. apply vs_no_overlap_newer; auto.
+Qed.
+
+Lemma vs_run_ok_tkeys r : run_ok r = true -> Forall tkeys_ok r.
+Proof.
+  intros H. apply vs_run_ok_parts in H. destruct H as [_ [T _]].
+  rewrite forallb_forall in T. apply Forall_forall. intros t Ht.
+  apply vs_table_ok_keys. auto.
+Qed.
+
+Lemma vs_runs_ok_tkeys rs : forallb run_ok rs = true -> Forall tkeys_ok (concat rs).
+Proof.
+  intros H. apply Forall_forall. intros t Ht. apply in_concat in Ht.
+  destruct Ht as [r [Hr Ht]]. rewrite forallb_forall in H.
+  pose proof (vs_run_ok_tkeys r (H r Hr)) as F. rewrite Forall_forall in F. auto.
+Qed.
+
+Lemma vs_run_ok_trec r : run_ok r = true -> trec r.
+Proof.
+  intros H. apply vs_pairwise_no_trec; auto using vs_run_ok_tkeys, vs_run_ok_pairwise_no.
+Qed.
+
+Lemma vs_runs_trec rs : forallb run_ok rs = true -> grp_rec rs -> trec (concat rs).
+Proof.
+  intros H G. apply vs_trec_concat. split; [|assumption].
+  apply Forall_forall. intros r Hr. rewrite forallb_forall in H. apply vs_run_ok_trec. auto.
+Qed.
+
+Lemma vs_place'_grp_rec rs x :
+  forallb run_ok rs = true -> table_ok x = true -> grp_rec rs ->
+  (forall a, In a (concat rs) -> tnewer a x) -> grp_rec (place' rs x).
+Proof.
+  induction rs as [|r rs IH]; intros Hok Tx G Hnew.
+  - cbn [place' grp_rec]. split; [|exact I]. intros a b _ [].
+  - cbn [forallb] in Hok. apply andb_true_iff in Hok. destruct Hok as [Hr Hrs].
+    cbn [grp_rec] in G. destruct G as [G1 G2].
+    cbn [place']. destruct (existsb (run_overlaps x) (r :: rs)) eqn:E; cbn [grp_rec].
+    + split.
+      * intros a b Ha Hb. apply vs_place'_in in Hb. destruct Hb as [->|Hb].
+        -- apply Hnew. apply vs_in_concat_cons. now left.
+        -- now apply G1.
+      * apply IH; auto. intros a Ha. apply Hnew. apply vs_in_concat_cons. now right.
+    + split; [|assumption]. intros a b Ha Hb. apply vs_run_push_in in Ha.
+      destruct Ha as [->|Ha]; [|now apply G1].
+      pose proof (vs_runs_ok_tkeys rs Hrs) as K. rewrite Forall_forall in K.
+      apply vs_no_overlap_newer; [now apply vs_table_ok_keys|now apply K|].
+      cbn [existsb] in E. apply orb_false_iff in E. destruct E as [_ E].
+      destruct (kr_overlaps x b) eqn:O; [|reflexivity].
+      apply in_concat in Hb. destruct Hb as [rb [Hrb Hb]].
+      assert (existsb (run_overlaps x) rs = true).
+      { apply existsb_exists. exists rb. split; [assumption|].
+        apply existsb_exists. exists b. auto. }
+      congruence.
+Qed.
+
+Lemma vs_opt_fold_grp_rec ts acc :
+  forallb run_ok acc = true -> forallb table_ok ts = true -> grp_rec acc ->
+  (forall a x, In a (concat acc) -> In x ts -> tnewer a x) -> trec ts ->
+  grp_rec (opt_fold ts acc).
+Proof.
+  revert acc; induction ts as [|t ts IH]; intros acc Hok Ht G Hnew R; [exact G|].
+  cbn [forallb] in Ht. apply andb_true_iff in Ht. destruct Ht as [Ht Hts].
+  apply vs_trec_cons in R. destruct R as [R1 R2]. rewrite Forall_forall in R1.
+  cbn [opt_fold fold_left]. apply IH; auto.
+  - now apply vs_place'_run_ok.
+  - apply vs_place'_grp_rec; auto. intros a Ha. apply Hnew; [assumption|now left].
+  - intros a x Ha Hx. apply vs_place'_in in Ha. destruct Ha as [->|Ha].
+    + now apply R1.
+    + apply Hnew; [assumption|now right].
+Qed.
+
+(** proved directly as a fold invariant (not via Theorem 3, whose value-based statement
+    is too weak when the same table value occurs twice) *)
+Theorem optimize_runs_recency rs :
+  forallb table_ok (concat rs) = true ->
+  recency_b (map ents (concat rs)) = true ->
+  recency_b (map ents (concat (optimize_runs rs))) = true.
+Proof.
+  intros T R. destruct (vs_optimize_runs_cases rs) as [->|[L E]]; [assumption|].
+  rewrite E. apply vs_runs_trec.
+  - now apply vs_opt_fold_run_ok.
+  - apply vs_opt_fold_grp_rec; auto; [exact I|intros a x []].
+Qed.
+
+(** * 8. The level invariant and the whole-version invariant *)
+
+Definition level_inv (rs : list run) : Prop :=
+  forallb run_ok rs = true /\ recency_b (map ents (concat rs)) = true.
+
+Theorem optimize_runs_level_inv rs : level_inv rs -> level_inv (optimize_runs rs).
+Proof.
+  intros [H R]. split; [now apply optimize_runs_run_ok_gen|].
+  apply optimize_runs_recency; [|assumption].
+  rewrite vs_forallb_concat. apply forallb_forall. intros r Hr.
+  rewrite forallb_forall in H. specialize (H r Hr). apply vs_run_ok_parts in H. tauto.
+Qed.
+
+Lemma vs_nodup_N_b l : nodup_N_b l = true <-> NoDup l.
+Proof.
+  induction l as [|x l IH]; cbn [nodup_N_b]; [split; [constructor|reflexivity]|].
+  rewrite andb_true_iff, negb_true_iff, IH. split.
+  - intros [H1 H2]. constructor; [|assumption]. intros HI.
+    assert (existsb (N.eqb x) l = true).
+    { apply existsb_exists. exists x. split; [assumption|apply N.eqb_refl]. }
+    congruence.
+  - intros H. inversion H as [|? ? H1 H2]; subst. split; [|assumption].
+    destruct (existsb (N.eqb x) l) eqn:E; [|reflexivity].
+    apply existsb_exists in E. destruct E as [y [Hy E]]. apply N.eqb_eq in E. now subst.
+Qed.
+
+Definition levels_inv (ls : list level) : Prop :=
+  Forall (fun l => forallb run_ok l = true) ls /\
+  NoDup (map tid (tables_of ls)) /\
+  trec (tables_of ls).
+
+Lemma vs_version_inv_iff v :
+  version_inv v = true <-> length (levels v) = 7%nat /\ levels_inv (levels v).
+Proof.
+  unfold version_inv, levels_inv, all_tables, all_runs, tables_of, trec.
+  rewrite !andb_true_iff, N.eqb_eq, vs_nodup_N_b, vs_forallb_concat.
+  rewrite forallb_forall, Forall_forall.
+  split; intros H; repeat split; try tauto; try lia.
+Qed.
+
+(** how one level of the result relates to the level before [optimize_runs] *)
+Definition lvl_rel (p l' : level) : Prop :=
+  forallb run_ok p = true -> trec (concat p) ->
+  forallb run_ok l' = true /\ trec (concat l') /\ Permutation (concat l') (concat p).
+
+Lemma vs_lvl_rel_refl p : lvl_rel p p.
+Proof. intros H R. auto. Qed.
+
+Lemma vs_lvl_rel_opt p : lvl_rel p (optimize_runs p).
+Proof.
+  intros H R. destruct (optimize_runs_level_inv p (conj H R)) as [H' R'].
+  split; [assumption|]. split; [assumption|apply optimize_runs_perm].
+Qed.
+
+Lemma vs_lvl_rel_map_opt ps : Forall2 lvl_rel ps (map optimize_runs ps).
+Proof.
+  induction ps as [|p ps IH]; cbn [map]; constructor; auto using vs_lvl_rel_opt.
+Qed.
+
+Lemma vs_lvl_rel_map_id ps : Forall2 lvl_rel ps ps.
+Proof.
+  induction ps as [|p ps IH]; constructor; auto using vs_lvl_rel_refl.
+Qed.
+
+Lemma vs_tables_of_eq (ls : list level) : tables_of ls = concat (map (@concat table) ls).
+Proof. unfold tables_of. apply (vs_concat_concat ls). Qed.
+
+Lemma vs_levels_rel_inv pre ls' :
+  Forall2 lvl_rel pre ls' -> levels_inv pre -> levels_inv ls'.
+Proof.
+  intros F [Hok [Hnd Hrec]].
+  rewrite vs_tables_of_eq in Hnd, Hrec.
+  apply vs_trec_concat in Hrec. destruct Hrec as [Hr Hg].
+  assert (F' : Forall2 (fun p l' => forallb run_ok l' = true /\ trec (concat l') /\
+                                  Permutation (concat l') (concat p)) pre ls').
+  { clear Hnd Hg. induction F as [|p l' pre ls' Hpl F IH]; [constructor|].
+    inversion Hok; subst. cbn [map] in Hr. inversion Hr; subst.
+    constructor; [apply Hpl; assumption|apply IH; assumption]. }
+  assert (P : Forall2 (@Permutation table) (map (@concat table) ls') (map (@concat table) pre)).
+  { clear -F'. induction F' as [|p l' pre ls' H F IH]; cbn [map]; constructor; tauto. }
+  repeat split.
+  - clear -F'. induction F' as [|p l' pre ls' H F IH]; constructor; tauto.
+  - rewrite vs_tables_of_eq. eapply Permutation_NoDup; [|exact Hnd].
+    apply Permutation_map, Permutation_sym, vs_perm_concat_Forall2. exact P.
+  - rewrite vs_tables_of_eq. apply vs_trec_concat. split.
+    + clear -F'. induction F' as [|p l' pre ls' H F IH]; cbn [map]; constructor; tauto.
+    + eapply vs_grp_rec_perm; eauto.
+Qed.
+
+(** ** the levels right after [retain] / [Run::new] insertion, before [optimize_runs] *)
+
+Lemma vs_concat_retain ids l : concat (retain_runs ids l) = kept ids (concat l).
+Proof.
+  unfold retain_runs, kept, run_retain. induction l as [|r l IH]; [reflexivity|].
+  cbn [map filter concat]. rewrite filter_app, <- IH.
+  destruct (filter (fun t => negb (id_in ids t)) r) as [|x r']; reflexivity.
+Qed.
+
+Lemma vs_tables_of_cons l ls : tables_of (l :: ls) = concat l ++ tables_of ls.
+Proof. unfold tables_of. cbn [concat]. apply concat_app. Qed.
+
+Lemma vs_tables_of_app ls1 ls2 : tables_of (ls1 ++ ls2) = tables_of ls1 ++ tables_of ls2.
+Proof. unfold tables_of. now rewrite !concat_app. Qed.
+
+Lemma vs_kept_app ids a b : kept ids (a ++ b) = kept ids a ++ kept ids b.
+Proof. apply filter_app. Qed.
+
+Lemma vs_tables_of_retain ids ls :
+  tables_of (map (retain_runs ids) ls) = kept ids (tables_of ls).
+Proof.
+  induction ls as [|l ls IH]; [reflexivity|].
+  cbn [map]. now rewrite !vs_tables_of_cons, vs_kept_app, vs_concat_retain, IH.
+Qed.
+
+Lemma vs_retain_runs_ok ids l :
+  forallb run_ok l = true -> forallb run_ok (retain_runs ids l) = true.
+Proof.
+  intros H. apply forallb_forall. intros r Hr. unfold retain_runs in Hr.
+  apply filter_In in Hr. destruct Hr as [Hr Hne]. apply in_map_iff in Hr.
+  destruct Hr as [r0 [<- Hr0]]. rewrite forallb_forall in H. specialize (H r0 Hr0).
+  pose proof (vs_filter_opt_run_ok (fun t => negb (id_in ids t)) r0 (vs_run_ok_opt _ H)) as O.
+  unfold run_retain in *. unfold opt_run_ok in O. unfold run_ok.
+  destruct (filter (fun t => negb (id_in ids t)) r0); [discriminate|assumption].
+Qed.
+
+Lemma vs_nodup_map_filter (p : table -> bool) ts :
+  NoDup (map tid ts) -> NoDup (map tid (filter p ts)).
+Proof.
+  induction ts as [|a ts IH]; cbn [map filter]; [auto|].
+  intros H. inversion H as [|? ? H1 H2]; subst.
+  destruct (p a); cbn [map]; [|auto]. constructor; [|auto].
+  intros HI. apply H1. apply in_map_iff in HI. destruct HI as [y [E Hy]].
+  apply filter_In in Hy. destruct Hy as [Hy _]. apply in_map_iff. eauto.
+Qed.
+
+Lemma vs_retain_levels_inv ids ls : levels_inv ls -> levels_inv (map (retain_runs ids) ls).
+Proof.
+  intros [Hok [Hnd Hrec]]. repeat split.
+  - apply Forall_forall. intros l' Hl'. apply in_map_iff in Hl'. destruct Hl' as [l [<- Hl]].
+    rewrite Forall_forall in Hok. apply vs_retain_runs_ok. auto.
+  - rewrite vs_tables_of_retain. now apply vs_nodup_map_filter.
+  - rewrite vs_tables_of_retain. now apply vs_trec_filter.
+Qed.
+
+(** * 9. with_dropped *)
+
+Theorem with_dropped_inv v ids :
+  version_inv v = true -> version_inv (with_dropped v ids) = true.
+Proof.
+  rewrite !vs_version_inv_iff. intros [L I]. unfold with_dropped. cbn [levels].
+  split; [now rewrite map_length|].
+  rewrite <- (map_map (retain_runs ids) optimize_runs).
+  eapply vs_levels_rel_inv; [apply vs_lvl_rel_map_opt|]. now apply vs_retain_levels_inv.
+Qed.
+
+Lemma with_dropped_vid v ids : vid (with_dropped v ids) = vid v + 1.
+Proof. reflexivity. Qed.
+
+(** * 10. with_new_l0_run *)
+
+Lemma vs_concat_run_new ts : concat (run_new ts) = ts.
+Proof. destruct ts; cbn [run_new concat]; [reflexivity|apply app_nil_r]. Qed.
+
+Lemma vs_all_newer_iff xs ys :
+  all_newer xs ys = true <-> (forall x y, In x xs -> In y ys -> tnewer x y).
+Proof.
+  unfold all_newer, tnewer. rewrite forallb_forall. split.
+  - intros H x y Hx Hy. specialize (H x Hx). rewrite forallb_forall in H. auto.
+  - intros H x Hx. apply forallb_forall. auto.
+Qed.
+
+Lemma vs_opt_run_ok_trec ts : opt_run_ok ts = true -> trec ts.
+Proof.
+  unfold opt_run_ok. intros H. apply andb_true_iff in H. destruct H as [T D].
+  destruct (vs_sorted_of_disjoint ts (vs_krange_of_table_ok _ T) D) as [_ P].
+  apply vs_pairwise_no_trec; [|assumption].
+  rewrite forallb_forall in T. apply Forall_forall. intros t Ht. apply vs_table_ok_keys. auto.
+Qed.
+
+Theorem with_new_l0_run_inv v tables :
+  version_inv v = true -> l0_choice_ok v tables = true ->
+  version_inv (with_new_l0_run v tables) = true.
+Proof.
+  intros Hv Hc. pose proof Hv as Hv'. rewrite vs_version_inv_iff in Hv'. destruct Hv' as [L I].
+  unfold l0_choice_ok in Hc. apply andb_true_iff in Hc. destruct Hc as [Hc Hnew].
+  apply andb_true_iff in Hc. destruct Hc as [Hrun Hfresh].
+  unfold with_new_l0_run. unfold all_tables, all_runs in Hfresh, Hnew.
+  fold (tables_of (levels v)) in Hfresh, Hnew.
+  destruct (levels v) as [|l0 rest] eqn:E; [assumption|].
+  apply vs_version_inv_iff. cbn [levels]. split; [exact L|].
+  apply (vs_levels_rel_inv ((run_new tables ++ l0) :: rest)).
+  - constructor; [apply vs_lvl_rel_opt|apply vs_lvl_rel_map_id].
+  - destruct I as [Hok [Hnd Hrec]].
+    assert (Et : tables_of ((run_new tables ++ l0) :: rest) = tables ++ tables_of (l0 :: rest)).
+    { rewrite !vs_tables_of_cons, concat_app, vs_concat_run_new. now rewrite app_assoc. }
+    repeat split.
+    + inversion Hok as [|? ? H0 Hr]; subst. constructor; [|assumption].
+      rewrite forallb_app, H0, andb_true_r. now apply vs_opt_run_ok_run_new.
+    + rewrite Et. now apply vs_nodup_N_b.
+    + rewrite Et. apply vs_trec_app. split; [now apply vs_opt_run_ok_trec|].
+      split; [assumption|]. now apply vs_all_newer_iff.
+Qed.
+
+(** the statement as asked: the new tables form a [run_ok] run, with fresh ids, newer
+    than everything in the version *)
+Corollary with_new_l0_run_inv' v tables :
+  version_inv v = true ->
+  run_ok tables = true ->
+  nodup_N_b (map tid (tables ++ all_tables v)) = true ->
+  (forall n t, In n tables -> In t (all_tables v) -> newer_than (ents n) (ents t) = true) ->
+  version_inv (with_new_l0_run v tables) = true.
+Proof.
+  intros Hv Hr Hf Hn. apply with_new_l0_run_inv; [assumption|].
+  unfold l0_choice_ok. rewrite (vs_run_ok_opt _ Hr), Hf. cbn [andb].
+  now apply vs_all_newer_iff.
+Qed.
+
+Lemma with_new_l0_run_vid v tables :
+  levels v <> [] -> vid (with_new_l0_run v tables) = vid v + 1.
+Proof. unfold with_new_l0_run. destruct (levels v); [congruence|reflexivity]. Qed.
+
+(** * 11. The shared loop of with_merge / with_moved *)
+
+(** the levels as they are right before the per-level [optimize_runs]; [d] counts down to
+    the destination level *)
+Fixpoint pre_levels (d : nat) (ids : list N) (new : list table) (ls : list level)
+  {struct ls} : list level :=
+  match ls with
+  | [] => []
+  | l :: ls' =>
+      match d with
+      | O => (run_new new ++ retain_runs ids l) :: map (retain_runs ids) ls'
+      | S d' => retain_runs ids l :: pre_levels d' ids new ls'
+      end
+  end.
+
+Lemma vs_rebuild_past idx ids new dest ls :
+  (dest < idx)%nat ->
+  rebuild_from idx ids new dest ls = map optimize_runs (map (retain_runs ids) ls).
+Proof.
+  revert idx; induction ls as [|l ls IH]; intros idx Hlt; [reflexivity|].
+  cbn [rebuild_from map]. assert (E : Nat.eqb idx dest = false) by (apply Nat.eqb_neq; lia).
+  rewrite E. f_equal. apply IH. lia.
+Qed.
+
+Lemma vs_rebuild_shape idx ids new dest ls :
+  (idx <= dest)%nat ->
+  rebuild_from idx ids new dest ls = map optimize_runs (pre_levels (dest - idx) ids new ls).
+Proof.
+  revert idx; induction ls as [|l ls IH]; intros idx Hle; [reflexivity|].
+  cbn [rebuild_from pre_levels]. destruct (dest - idx)%nat as [|d'] eqn:D.
+  - assert (idx = dest) by lia. subst idx. rewrite Nat.eqb_refl. cbn [map]. f_equal.
+    apply vs_rebuild_past. lia.
+  - assert (E : Nat.eqb idx dest = false) by (apply Nat.eqb_neq; lia).
+    rewrite E. cbn [map]. f_equal. rewrite IH by lia. do 2 f_equal. lia.
+Qed.
+
+Lemma vs_pre_levels_length d ids new ls : length (pre_levels d ids new ls) = length ls.
+Proof.
+  revert d; induction ls as [|l ls IH]; intros d; [reflexivity|].
+  destruct d; cbn [pre_levels length]; [now rewrite map_length|now rewrite IH].
+Qed.
+
+Lemma vs_pre_levels_out d ids new ls :
+  (length ls <= d)%nat -> pre_levels d ids new ls = map (retain_runs ids) ls.
+Proof.
+  revert d; induction ls as [|l ls IH]; intros d Hle; [reflexivity|].
+  cbn [length] in Hle. destruct d as [|d]; [lia|].
+  cbn [pre_levels map]. f_equal. apply IH. lia.
+Qed.
+
+Lemma vs_pre_levels_tables d ids new ls :
+  (d < length ls)%nat ->
+  tables_of (pre_levels d ids new ls)
+  = kept ids (tables_of (firstn d ls)) ++ new ++ kept ids (tables_of (skipn d ls)).
+Proof.
+  revert d; induction ls as [|l ls IH]; intros d Hlt; [cbn [length] in Hlt; lia|].
+  destruct d as [|d]; cbn [pre_levels firstn skipn].
+  - rewrite !vs_tables_of_cons, concat_app, vs_concat_run_new, vs_concat_retain,
+      vs_tables_of_retain, vs_kept_app.
+    change (kept ids (tables_of [])) with (@nil table). cbn [app]. now rewrite app_assoc.
+  - cbn [length] in Hlt. rewrite !vs_tables_of_cons, IH by lia.
+    now rewrite vs_kept_app, vs_concat_retain, app_assoc.
+Qed.
+
+Lemma vs_pre_levels_runs_ok d ids new ls :
+  opt_run_ok new = true ->
+  Forall (fun l => forallb run_ok l = true) ls ->
+  Forall (fun l => forallb run_ok l = true) (pre_levels d ids new ls).
+Proof.
+  intros Hn. revert d; induction ls as [|l ls IH]; intros d H; [constructor|].
+  inversion H as [|? ? Hl Hls]; subst. destruct d as [|d]; cbn [pre_levels]; constructor.
+  - rewrite forallb_app, vs_opt_run_ok_run_new, vs_retain_runs_ok; auto.
+  - apply Forall_forall. intros l' Hl'. apply in_map_iff in Hl'. destruct Hl' as [l0 [<- Hl0]].
+    rewrite Forall_forall in Hls. apply vs_retain_runs_ok. auto.
+  - now apply vs_retain_runs_ok.
+  - now apply IH.
+Qed.
+
+(** the heart of with_merge_inv / with_moved_inv *)
+Lemma vs_pre_levels_inv d ids new ls :
+  (d < length ls)%nat ->
+  levels_inv ls ->
+  opt_run_ok new = true ->
+  NoDup (map tid (new ++ kept ids (tables_of ls))) ->
+  all_newer (kept ids (tables_of (firstn d ls))) new = true ->
+  all_newer new (kept ids (tables_of (skipn d ls))) = true ->
+  levels_inv (pre_levels d ids new ls).
+Proof.
+  intros Hd [Hok [Hnd Hrec]] Hn Hfresh Hup Hdown.
+  assert (Es : tables_of ls = tables_of (firstn d ls) ++ tables_of (skipn d ls)).
+  { now rewrite <- vs_tables_of_app, firstn_skipn. }
+  rewrite vs_all_newer_iff in Hup, Hdown.
+  repeat split.
+  - now apply vs_pre_levels_runs_ok.
+  - rewrite vs_pre_levels_tables by assumption.
+    eapply Permutation_NoDup; [|exact Hfresh]. apply Permutation_map.
+    rewrite Es, vs_kept_app. apply Permutation_app_swap_app.
+  - rewrite vs_pre_levels_tables by assumption.
+    rewrite Es in Hrec. apply (vs_trec_filter (fun t => negb (id_in ids t))) in Hrec.
+    rewrite filter_app in Hrec. apply vs_trec_app in Hrec. destruct Hrec as [Ra [Rb Rab]].
+    apply vs_trec_app. split; [exact Ra|]. split.
+    + apply vs_trec_app. split; [now apply vs_opt_run_ok_trec|]. split; [exact Rb|exact Hdown].
+    + intros x y Hx Hy. apply in_app_or in Hy. destruct Hy as [Hy|Hy]; [now apply Hup|].
+      now apply Rab.
+Qed.
+
+Lemma vs_rebuild_inv ids new dest ls :
+  levels_inv ls ->
+  opt_run_ok new = true ->
+  NoDup (map tid (new ++ kept ids (tables_of ls))) ->
+  all_newer (kept ids (tables_of (firstn dest ls))) new = true ->
+  all_newer new (kept ids (tables_of (skipn dest ls))) = true ->
+  levels_inv (rebuild_from O ids new dest ls) /\
+  length (rebuild_from O ids new dest ls) = length ls.
+Proof.
+  intros I Hn Hfresh Hup Hdown.
+  rewrite vs_rebuild_shape by lia. rewrite Nat.sub_0_r.
+  split; [|now rewrite map_length, vs_pre_levels_length].
+  eapply vs_levels_rel_inv; [apply vs_lvl_rel_map_opt|].
+  destruct (Nat.ltb dest (length ls)) eqn:C.
+  - apply Nat.ltb_lt in C. now apply vs_pre_levels_inv.
+  - apply Nat.ltb_ge in C. rewrite vs_pre_levels_out by assumption.
+    now apply vs_retain_levels_inv.
+Qed.
+
+(** * 12. with_merge *)
+
+Theorem with_merge_inv v old_ids new_tables dest :
+  version_inv v = true -> merge_choice_ok v old_ids new_tables dest = true ->
+  version_inv (with_merge v old_ids new_tables dest) = true.
+Proof.
+  rewrite !vs_version_inv_iff. intros [L I] Hc.
+  unfold merge_choice_ok, place_ok in Hc.
+  apply andb_true_iff in Hc. destruct Hc as [Hc Hp].
+  apply andb_true_iff in Hc. destruct Hc as [Hrun Hfresh].
+  apply andb_true_iff in Hp. destruct Hp as [Hup Hdown].
+  apply vs_nodup_N_b in Hfresh.
+  destruct (vs_rebuild_inv old_ids new_tables dest (levels v) I Hrun Hfresh Hup Hdown) as [I' L'].
+  unfold with_merge. cbn [levels]. split; [now rewrite L'|exact I'].
+Qed.
+
+Lemma with_merge_vid v old_ids new_tables dest :
+  vid (with_merge v old_ids new_tables dest) = vid v + 1.
+Proof. reflexivity. Qed.
+
+(** * 13. with_moved *)
+
+Theorem with_moved_inv v ids dest :
+  version_inv v = true -> move_choice_ok v ids dest = true ->
+  version_inv (with_moved v ids dest) = true.
+Proof.
+  intros Hv Hc. unfold with_moved.
+  destruct (Nat.eqb (length (filter (id_in ids) (all_tables v))) (length ids)); [|assumption].
+  rewrite vs_version_inv_iff in *. destruct Hv as [L I].
+  unfold move_choice_ok, place_ok in Hc.
+  apply andb_true_iff in Hc. destruct Hc as [Hdis Hp].
+  apply andb_true_iff in Hp. destruct Hp as [Hup Hdown].
+  change (all_tables v) with (tables_of (levels v)) in *.
+  set (aff := filter (id_in ids) (tables_of (levels v))) in *.
+  assert (Hrun : opt_run_ok aff = true).
+  { unfold opt_run_ok. rewrite Hdis, andb_true_r. apply forallb_forall. intros t Ht.
+    apply filter_In in Ht. destruct Ht as [Ht _].
+    unfold tables_of in Ht. apply in_concat in Ht. destruct Ht as [r [Hr Ht]].
+    apply in_concat in Hr. destruct Hr as [l [Hl Hr]].
+    destruct I as [Hok _]. rewrite Forall_forall in Hok. specialize (Hok l Hl).
+    rewrite forallb_forall in Hok. specialize (Hok r Hr). apply vs_run_ok_parts in Hok.
+    destruct Hok as [_ [T _]]. rewrite forallb_forall in T. auto. }
+  assert (Hfresh : NoDup (map tid (aff ++ kept ids (tables_of (levels v))))).
+  { destruct I as [_ [Hnd _]]. eapply Permutation_NoDup; [|exact Hnd].
+    apply Permutation_map, Permutation_sym. apply vs_perm_filter_split. }
+  destruct (vs_rebuild_inv ids aff dest (levels v) I Hrun Hfresh Hup Hdown) as [I' L'].
+  cbn [levels]. split; [now rewrite L'|exact I'].
+Qed.
+
+(** * 13b. The conditions are exact: necessity of [place_ok] (and of freshness and
+    [table_ok] of the new tables) for a destination level that exists *)
+
+Lemma vs_levels_table_ok ls t :
+  Forall (fun l => forallb run_ok l = true) ls -> In t (tables_of ls) -> table_ok t = true.
+Proof.
+  intros Hok Ht. unfold tables_of in Ht. apply in_concat in Ht. destruct Ht as [r [Hr Ht]].
+  apply in_concat in Hr. destruct Hr as [l [Hl Hr]].
+  rewrite Forall_forall in Hok. specialize (Hok l Hl).
+  rewrite forallb_forall in Hok. specialize (Hok r Hr). apply vs_run_ok_parts in Hok.
+  destruct Hok as [_ [T _]]. rewrite forallb_forall in T. auto.
+Qed.
+
+Lemma vs_pre_levels_split d ids new ls :
+  (d < length ls)%nat ->
+  exists ld B, skipn d ls = ld :: B /\
+    pre_levels d ids new ls
+    = map (retain_runs ids) (firstn d ls)
+      ++ (run_new new ++ retain_runs ids ld) :: map (retain_runs ids) B.
+Proof.
+  revert d; induction ls as [|l ls IH]; intros d Hlt; [cbn [length] in Hlt; lia|].
+  destruct d as [|d]; cbn [pre_levels firstn skipn map app].
+  - exists l, ls. split; reflexivity.
+  - cbn [length] in Hlt. destruct (IH d) as (ld & B & E1 & E2); [lia|].
+    exists ld, B. split; [assumption|]. now rewrite E2.
+Qed.
+
+Lemma vs_grp_rec_split G1 g G2 :
+  grp_rec (G1 ++ g :: G2) ->
+  (forall x y, In x (concat G1) -> In y g -> tnewer x y) /\
+  (forall x y, In x g -> In y (concat G2) -> tnewer x y).
+Proof.
+  induction G1 as [|h G1 IH]; cbn [app grp_rec concat].
+  - intros [H1 _]. split; [intros x y []|exact H1].
+  - intros [H1 H2]. destruct (IH H2) as [A B]. split; [|exact B].
+    intros x y Hx Hy. apply in_app_or in Hx. destruct Hx as [Hx|Hx]; [|now apply A].
+    apply H1; [assumption|]. rewrite concat_app. apply in_or_app. right.
+    cbn [concat]. apply in_or_app. now left.
+Qed.
+
+Lemma vs_trec_occurs l a b : trec l -> occurs_before l a b -> tnewer a b.
+Proof.
+  intros R (l1 & l2 & l3 & ->). apply vs_trec_app in R. destruct R as [_ [R _]].
+  apply vs_trec_cons in R. destruct R as [R _]. rewrite Forall_forall in R.
+  apply R. apply in_or_app. right. now left.
+Qed.
+
+Lemma vs_map_opt_perm (pre : list level) :
+  Forall2 (@Permutation table) (map (@concat table) pre)
+          (map (@concat table) (map optimize_runs pre)).
+Proof.
+  induction pre as [|p pre IH]; cbn [map]; constructor; [|exact IH].
+  apply Permutation_sym, optimize_runs_perm.
+Qed.
+
+Theorem merge_choice_necessary v ids new dest :
+  version_inv v = true -> (dest < length (levels v))%nat ->
+  version_inv (mkV (vid v + 1) (rebuild_from O ids new dest (levels v))) = true ->
+  forallb table_ok new = true /\
+  nodup_N_b (map tid (new ++ kept ids (all_tables v))) = true /\
+  place_ok v ids new dest = true.
+Proof.
+  rewrite !vs_version_inv_iff. cbn [levels]. intros [L I] Hd [_ [Hok' [Hnd' Hrec']]].
+  change (all_tables v) with (tables_of (levels v)).
+  set (ls := levels v) in *.
+  rewrite vs_rebuild_shape in Hok', Hnd', Hrec' by lia. rewrite Nat.sub_0_r in *.
+  set (pre := pre_levels dest ids new ls) in *.
+  assert (P : Permutation (tables_of pre) (tables_of (map optimize_runs pre))).
+  { rewrite !vs_tables_of_eq. apply vs_perm_concat_Forall2, vs_map_opt_perm. }
+  assert (Et : tables_of pre = kept ids (tables_of (firstn dest ls)) ++ new
+                               ++ kept ids (tables_of (skipn dest ls))).
+  { now apply vs_pre_levels_tables. }
+  assert (Es : tables_of ls = tables_of (firstn dest ls) ++ tables_of (skipn dest ls)).
+  { now rewrite <- vs_tables_of_app, firstn_skipn. }
+  assert (Tnew : forall n, In n new -> table_ok n = true).
+  { intros n Hn. apply (vs_levels_table_ok (map optimize_runs pre)); [assumption|].
+    eapply Permutation_in; [exact P|]. rewrite Et. apply in_or_app. right.
+    apply in_or_app. now left. }
+  split; [apply forallb_forall; exact Tnew|]. split.
+  - apply vs_nodup_N_b. eapply Permutation_NoDup; [|exact Hnd'].
+    apply Permutation_map. eapply perm_trans; [apply Permutation_sym; exact P|].
+    rewrite Et, Es, vs_kept_app. apply Permutation_app_swap_app.
+  - destruct (vs_pre_levels_split dest ids new ls Hd) as (ld & B & Esk & Epre).
+    rewrite vs_tables_of_eq in Hrec'. apply vs_trec_concat in Hrec'.
+    destruct Hrec' as [Hlv Hg].
+    assert (Hg' : grp_rec (map (@concat table) pre)).
+    { eapply vs_grp_rec_perm; [apply vs_map_opt_perm|exact Hg]. }
+    fold pre in Epre. rewrite Epre in Hg'. rewrite map_app in Hg'. cbn [map] in Hg'.
+    apply vs_grp_rec_split in Hg'. destruct Hg' as [Hup Hdown].
+    rewrite <- !vs_tables_of_eq, !vs_tables_of_retain in Hup, Hdown.
+    rewrite concat_app, vs_concat_run_new, vs_concat_retain in Hup, Hdown.
+    unfold place_ok. fold ls. apply andb_true_iff. split; apply vs_all_newer_iff.
+    + intros x n Hx Hn. apply Hup; [assumption|]. apply in_or_app. now left.
+    + intros n y Hn Hy. rewrite Esk, vs_tables_of_cons, vs_kept_app in Hy.
+      apply in_app_or in Hy. destruct Hy as [Hy|Hy];
+        [|apply Hdown; [apply in_or_app; now left|assumption]].
+      (* same level: the order theorem *)
+      destruct (kr_overlaps n y) eqn:O.
+      * assert (Hin : In (optimize_runs (run_new new ++ retain_runs ids ld))
+                         (map optimize_runs pre)).
+        { rewrite Epre, map_app. apply in_or_app. right. now left. }
+        rewrite Forall_forall in Hlv.
+        assert (Rd : trec (concat (optimize_runs (run_new new ++ retain_runs ids ld)))).
+        { apply Hlv. now apply in_map. }
+        eapply vs_trec_occurs; [exact Rd|].
+        destruct new as [|n0 new']; [contradiction|]. cbn [run_new app] in *.
+        rewrite <- vs_concat_retain in Hy.
+        destruct (retain_runs ids ld) as [|r0 rs0] eqn:Er; [contradiction|].
+        rewrite vs_optimize_runs_big by (cbn [length]; lia).
+        apply vs_runs_before_occurs. apply vs_opt_fold_order; [|assumption].
+        cbn [concat]. apply in_split in Hn. destruct Hn as [a1 [a2 ->]].
+        apply in_split in Hy. destruct Hy as [b1 [b2 Eb]]. cbn [concat] in Eb. rewrite Eb.
+        exists a1, (a2 ++ b1), b2. now rewrite <- !app_assoc.
+      * apply vs_no_overlap_newer; [apply vs_table_ok_keys; auto| |assumption].
+        apply vs_table_ok_keys. destruct I as [Hok _].
+        apply (vs_levels_table_ok ls); [assumption|]. rewrite Es. apply in_or_app. right.
+        rewrite Esk, vs_tables_of_cons. apply in_or_app. left.
+        apply filter_In in Hy. tauto.
+Qed.
+
+(** so, for an existing destination level and a vector of new tables that is a legal
+    run (or empty), the condition of with_merge_inv is necessary and sufficient *)
+Corollary with_merge_inv_iff v old_ids new_tables dest :
+  version_inv v = true -> (dest < length (levels v))%nat -> run_disjoint_b new_tables = true ->
+  (version_inv (with_merge v old_ids new_tables dest) = true
+   <-> merge_choice_ok v old_ids new_tables dest = true).
+Proof.
+  intros Hv Hd Hdis. split; [|now apply with_merge_inv].
+  intros H. destruct (merge_choice_necessary v old_ids new_tables dest Hv Hd H) as [T [F P]].
+  unfold merge_choice_ok, opt_run_ok. now rewrite T, Hdis, F, P.
+Qed.
+
+Corollary with_moved_inv_iff v ids dest :
+  version_inv v = true -> (dest < length (levels v))%nat ->
+  length (filter (id_in ids) (all_tables v)) = length ids ->       (* the assert_eq! holds *)
+  run_disjoint_b (filter (id_in ids) (all_tables v)) = true ->
+  (version_inv (with_moved v ids dest) = true <-> move_choice_ok v ids dest = true).
+Proof.
+  intros Hv Hd Hlen Hdis. split; [|now apply with_moved_inv].
+  unfold with_moved. rewrite Hlen, Nat.eqb_refl. intros H.
+  destruct (merge_choice_necessary v ids _ dest Hv Hd H) as [_ [_ P]].
+  unfold move_choice_ok. now rewrite Hdis, P.
+Qed.
+
+(** * 14. The link to [check_inv_sv] *)
+
+Lemma vs_recency_app_r a b : recency_b (a ++ b) = true -> recency_b b = true.
+Proof.
+  induction a as [|c a IH]; cbn [app recency_b]; [auto|].
+  intros H. apply andb_true_iff in H. tauto.
+Qed.
+
+(** [version_inv] is exactly the whole-version part of [check_inv_sv] *)
+Lemma check_inv_sv_version_inv sv : check_inv_sv sv = true -> version_inv (ver sv) = true.
+Proof.
+  unfold check_inv_sv, version_inv, containers. intros H.
+  apply andb_true_iff in H. destruct H as [H Hrec].
+  apply andb_true_iff in H. destruct H as [H Hnd].
+  apply andb_true_iff in H. destruct H as [H Hok].
+  apply andb_true_iff in H. destruct H as [_ Hlen].
+  rewrite Hlen, Hok, Hnd. cbn [andb].
+  apply (vs_recency_app_r (ments (active sv) :: map ments (rev (sealed sv)))). exact Hrec.
+Qed.
+
+(** * 15. Examples *)
+
+(** ** 15.1 the unit tests of src/version/optimize.rs, replayed
+    ([s(id, min, max)]: only id and key range matter; keys are the ASCII bytes) *)
+Definition ft (id : N) (mn mx : N) : table := mkT id 0 [] [mn] [mx] 0 0 0 0 0.
+Notation "'ca'" := 97 (only parsing).  Notation "'cb'" := 98 (only parsing).
+Notation "'cc'" := 99 (only parsing).  Notation "'cd'" := 100 (only parsing).
+Notation "'cf'" := 102 (only parsing). Notation "'cm'" := 109 (only parsing).
+Notation "'cp'" := 112 (only parsing). Notation "'cz'" := 122 (only parsing).
+
+Example optimize_runs_empty : optimize_runs [] = [].
+Proof. vm_compute; reflexivity. Qed.
+
+Example optimize_runs_one : optimize_runs [[ft 0 ca cb]] = [[ft 0 ca cb]].
+Proof. vm_compute; reflexivity. Qed.
+
+Example optimize_runs_two_overlap :
+  optimize_runs [[ft 0 ca cb]; [ft 1 ca cb]] = [[ft 0 ca cb]; [ft 1 ca cb]].
+Proof. vm_compute; reflexivity. Qed.
+
+Example optimize_runs_two_overlap_2 :
+  optimize_runs [[ft 0 ca cz]; [ft 1 cc cf]] = [[ft 0 ca cz]; [ft 1 cc cf]].
+Proof. vm_compute; reflexivity. Qed.
+
+Example optimize_runs_two_overlap_3 :
+  optimize_runs [[ft 0 cc cf]; [ft 1 ca cz]] = [[ft 0 cc cf]; [ft 1 ca cz]].
+Proof. vm_compute; reflexivity. Qed.
+
+Example optimize_runs_two_disjoint :
+  optimize_runs [[ft 0 ca cc]; [ft 1 cd cf]] = [[ft 0 ca cc; ft 1 cd cf]].
+Proof. vm_compute; reflexivity. Qed.
+
+Example optimize_runs_two_disjoint_2 :
+  optimize_runs [[ft 1 cd cf]; [ft 0 ca cc]] = [[ft 0 ca cc; ft 1 cd cf]].
+Proof. vm_compute; reflexivity. Qed.
+
+Example optimize_runs_overlap_transitive :
+  optimize_runs [[ft 2 cm cp]; [ft 1 ca cz]; [ft 0 ca cc]]
+  = [[ft 2 cm cp]; [ft 1 ca cz]; [ft 0 ca cc]].
+Proof. vm_compute; reflexivity. Qed.
+
+(** key_range.rs tests: key_range_overlap, key_range_overlap_edge, key_range_no_overlap *)
+Example key_range_overlap : kr_overlaps (ft 0 ca cf) (ft 1 cb 104) = true.
+Proof. vm_compute; reflexivity. Qed.
+Example key_range_overlap_edge : kr_overlaps (ft 0 ca cf) (ft 1 cf 116) = true.
+Proof. vm_compute; reflexivity. Qed.
+Example key_range_no_overlap : kr_overlaps (ft 0 ca cf) (ft 1 103 116) = false.
+Proof. vm_compute; reflexivity. Qed.
+
+(** [Run::push] keeps the vector sorted by min key; ties keep insertion order (stable) *)
+Example run_push_sorted :
+  run_push [ft 0 ca cb; ft 1 cm cp] (ft 2 cd cf) = [ft 0 ca cb; ft 2 cd cf; ft 1 cm cp].
+Proof. vm_compute; reflexivity. Qed.
+Example run_push_stable :
+  run_push [ft 0 ca cb; ft 1 cd cp] (ft 2 cd cf) = [ft 0 ca cb; ft 1 cd cp; ft 2 cd cf].
+Proof. vm_compute; reflexivity. Qed.
+
+(** a table pushed behind the LAST overlapping run, not the first free one *)
+Example optimize_runs_behind_last :
+  optimize_runs [[ft 0 ca cc]; [ft 1 ca cz]; [ft 2 cm cp]]
+  = [[ft 0 ca cc]; [ft 1 ca cz]; [ft 2 cm cp]].
+Proof. vm_compute; reflexivity. Qed.
+
+(** ** 15.2 well-formed tables: the hypotheses of the theorems are satisfiable *)
+
+Definition mk_table (id : N) (es : list entry) : table :=
+  match es with
+  | [] => mkT id 0 [] [] [] 0 0 0 0 0
+  | e0 :: _ =>
+      mkT id 0 es (ukey e0) (ukey (last es e0)) (min_seq es) (max_seq es)
+          (N.of_nat (length es)) (count_b is_tomb es) (count_b is_weak es)
+  end.
+Definition ev (k s : N) : entry := mkE [k] s Value [s].
+
+Definition T1 := mk_table 1 [ev 1 9].
+Definition T2 := mk_table 2 [ev 1 5; ev 3 5].
+Definition T3 := mk_table 3 [ev 1 3; ev 2 3].
+Definition T4 := mk_table 4 [ev 5 2; ev 6 2].
+Definition T5 := mk_table 5 [ev 6 1; ev 9 1].
+
+(** L0 = [T1], L1 = [T2], L2 = [T3 T4] [T5] (T5 overlaps T4 on key 6), L3..L6 empty *)
+Definition v0 : version := mkV 7 [[[T1]]; [[T2]]; [[T3; T4]; [T5]]; []; []; []; []].
+
+Example v0_inv : version_inv v0 = true.
+Proof. vm_compute; reflexivity. Qed.
+
+(** Theorems 1, 2, 4 on L2 of v0 with a third run: its table (key 4) overlaps nothing and
+    is packed into the first run; T5 stays behind T4 *)
+Definition T6 := mk_table 6 [ev 4 0].
+Example optimize_level_instance :
+  let rs := [[T3; T4]; [T5]; [T6]] in
+  forallb table_ok (concat rs) = true /\
+  recency_b (map ents (concat rs)) = true /\
+  optimize_runs rs = [[T3; T6; T4]; [T5]] /\
+  forallb run_ok (optimize_runs rs) = true /\
+  recency_b (map ents (concat (optimize_runs rs))) = true.
+Proof. vm_compute; repeat split; reflexivity. Qed.
+
+(** Theorem 3: T2 before T3 in the input and overlapping: distinct output runs, same order;
+    the non-overlapping T4 joins T2's run *)
+Example optimize_order_instance :
+  let rs := [[T2]; [T3; T4]] in
+  occurs_before (concat rs) T2 T3 /\ kr_overlaps T2 T3 = true /\
+  optimize_runs rs = [[T2; T4]; [T3]].
+Proof.
+  cbn zeta. split; [exists [], [], [T4]; reflexivity|]. split; vm_compute; reflexivity.
+Qed.
+
+(** with_dropped *)
+Example with_dropped_instance :
+  with_dropped v0 [2; 4] = mkV 8 [[[T1]]; []; [[T3; T5]]; []; []; []; []] /\
+  version_inv (with_dropped v0 [2; 4]) = true.
+Proof. split; vm_compute; reflexivity. Qed.
+
+(** with_new_l0_run: a flushed memtable with the newest seqnos *)
+Definition T0 := mk_table 10 [ev 1 12; ev 4 11].
+Example with_new_l0_run_instance :
+  l0_choice_ok v0 [T0] = true /\
+  levels (with_new_l0_run v0 [T0]) = [[[T0]; [T1]]; [[T2]]; [[T3; T4]; [T5]]; []; []; []; []] /\
+  version_inv (with_new_l0_run v0 [T0]) = true.
+Proof. repeat split; vm_compute; reflexivity. Qed.
+
+(** ... and a stale "new" table (older than T1 for key 1) is rejected by the condition and
+    does break the invariant *)
+Example with_new_l0_run_stale :
+  let stale := mk_table 11 [ev 1 8] in
+  l0_choice_ok v0 [stale] = false /\ version_inv (with_new_l0_run v0 [stale]) = false.
+Proof. split; vm_compute; reflexivity. Qed.
+
+(** with_merge: compact L1 = {T2} and the overlapping T3 of L2 into L2 *)
+Definition T23 := mk_table 23 [ev 1 5; ev 2 3; ev 3 5].
+Example with_merge_instance :
+  merge_choice_ok v0 [2; 3] [T23] 2 = true /\
+  levels (with_merge v0 [2; 3] [T23] 2) = [[[T1]]; []; [[T23; T4]; [T5]]; []; []; []; []] /\
+  version_inv (with_merge v0 [2; 3] [T23] 2) = true.
+Proof. repeat split; vm_compute; reflexivity. Qed.
+
+(** merging L0+L1 = {T1, T2} into L3, past L2 which still holds key 1 in T3: condition
+    false, invariant broken (T3's stale key 1 now shadows the merged table) *)
+Definition T12 := mk_table 12 [ev 1 9; ev 3 5].
+Example with_merge_past_overlap :
+  merge_choice_ok v0 [1; 2] [T12] 3 = false /\
+  version_inv (with_merge v0 [1; 2] [T12] 3) = false /\
+  runs_get (fun _ _ => true) (all_runs (with_merge v0 [1; 2] [T12] 3)) [1] 100 = Some (ev 1 3).
+Proof. repeat split; vm_compute; reflexivity. Qed.
+
+(** a destination level that does not exist: the new tables vanish (mod.rs: with_merge
+    never meets [dest_level]); the structural invariant still holds *)
+Example with_merge_dest_out_of_range :
+  levels (with_merge v0 [2; 3] [T23] 7) = [[[T1]]; []; [[T4]; [T5]]; []; []; []; []].
+Proof. vm_compute; reflexivity. Qed.
+
+(** with_moved: a trivial move of T2 from L1 to the front of L2 is fine ... *)
+Example with_moved_instance :
+  move_choice_ok v0 [2] 2 = true /\
+  levels (with_moved v0 [2] 2) = [[[T1]]; []; [[T2; T4]; [T3; T5]]; []; []; []; []] /\
+  version_inv (with_moved v0 [2] 2) = true.
+Proof. repeat split; vm_compute; reflexivity. Qed.
+
+(** ... but a MoveDown-style move of T2 from L1 to L3, past L2 whose T3 overlaps it, puts
+    the older version of key 1 (seq 3, in T3) in front of the newer one (seq 5, in T2):
+    [move_choice_ok] is false, [recency_b] is violated, and a point read goes wrong. *)
+Example with_moved_past_overlap_refuted :
+  version_inv v0 = true /\
+  move_choice_ok v0 [2] 3 = false /\
+  levels (with_moved v0 [2] 3) = [[[T1]]; []; [[T3; T4]; [T5]]; [[T2]]; []; []; []] /\
+  forallb run_ok (all_runs (with_moved v0 [2] 3)) = true /\
+  recency_b (map ents (all_tables (with_moved v0 [2] 3))) = false /\
+  version_inv (with_moved v0 [2] 3) = false.
+Proof. repeat split; vm_compute; reflexivity. Qed.
+
+Example with_moved_past_overlap_read :
+  let v := with_dropped v0 [1] in          (* no T1, so key 1 lives in T2 (seq 5), T3 (seq 3) *)
+  version_inv v = true /\
+  runs_get (fun _ _ => true) (all_runs v) [1] 100 = Some (ev 1 5) /\
+  runs_get (fun _ _ => true) (all_runs (with_moved v [2] 3)) [1] 100 = Some (ev 1 3).
+Proof. repeat split; vm_compute; reflexivity. Qed.
+
+(** moving two tables that do not form a sorted disjoint run (iter_tables order T2, T3:
+    overlapping) into an empty level: the single run of the level is not a legal run,
+    [optimize_runs] returns it unchanged because there is only one *)
+Example with_moved_bad_run :
+  move_choice_ok v0 [2; 3] 4 = false /\
+  levels (with_moved v0 [2; 3] 4) = [[[T1]]; []; [[T4]; [T5]]; []; [[T2; T3]]; []; []] /\
+  forallb run_ok (all_runs (with_moved v0 [2; 3] 4)) = false.
+Proof. repeat split; vm_compute; reflexivity. Qed.
+
+(** the [assert_eq!] of with_moved: unknown id, no new version *)
+Example with_moved_invalid_ids : with_moved v0 [2; 99] 3 = v0.
+Proof. vm_compute; reflexivity. Qed.
+
+(** * 16. Assumptions *)
+Print Assumptions optimize_runs_perm.
+Print Assumptions optimize_runs_run_ok.
+Print Assumptions optimize_runs_run_ok_gen.
+Print Assumptions optimize_runs_order.
+Print Assumptions optimize_runs_recency.
+Print Assumptions optimize_runs_level_inv.
+Print Assumptions with_dropped_inv.
+Print Assumptions with_new_l0_run_inv.
+Print Assumptions with_new_l0_run_inv'.
+Print Assumptions with_merge_inv.
+Print Assumptions with_moved_inv.
+Print Assumptions merge_choice_necessary.
+Print Assumptions with_merge_inv_iff.
+Print Assumptions with_moved_inv_iff.
+Print Assumptions check_inv_sv_version_inv.
